@@ -155,7 +155,6 @@ func (y *c01Sys) Letters(s *c01State) []engine.Letter {
 		for t := 0; t < 2; t++ {
 			ls = append(ls, engine.Letter{Name: fmt.Sprintf("Propose(b%d,root=T%d)", b, t+1), Data: c01Propose{b, t}})
 		}
-		ls = append(ls, engine.Letter{Name: fmt.Sprintf("Delete(b%d,1)", b), Data: c01Delete{b}})
 		for t := 0; t < 2; t++ {
 			for leaf := 0; leaf < 2; leaf++ {
 				if t != int(b-1) && leaf == 1 {
@@ -166,6 +165,9 @@ func (y *c01Sys) Letters(s *c01State) []engine.Letter {
 				}
 			}
 		}
+		// (the roll-back is offered after the claims: a state's claims are then tried by keepers that have
+		// last served whatever the search visited before, not a roll-back of this very output)
+		ls = append(ls, engine.Letter{Name: fmt.Sprintf("Delete(b%d,1)", b), Data: c01Delete{b}})
 		for role := 0; role < 2; role++ {
 			if !s.rot[b-1][role] {
 				ls = append(ls, engine.Letter{Name: fmt.Sprintf("UpdateRole(b%d,%s)", b, []string{"proposer", "challenger"}[role]), Data: c01Role{b, role}})
